@@ -16,7 +16,16 @@
 //       [constr=requires:<key>|excludes:<key>] [fmt=upper|lower]
 //   hc t=<k> kind=<all_of|any_of|one_of> spec=<k1;k2..>
 //   argv t=<k> <word>...
-//   run n=<threads> reps=<r> seed=<s>
+//   help t=<k>           the thread's handler is created with hfHelpShort | hfUsageCont and streams of its own:
+//                        `-h` on its command line prints the usage (Handler::usage(), which starts with
+//                        Groups::instance().evaluatedByArgGroups() -- the process-wide Singleton<Groups>);
+//                        the usage text is part of the thread's result (`/usage=<length>:<hash>`)
+//   run n=<threads> reps=<r> seed=<s> [forced=1]
+//       with `help` threads the group singleton is reset before every round (first use races again);
+//       forced=1: a schedule forced through the CELMA_VERIF sync points of Singleton<T>::instance(): every
+//       thread that passed the unlocked first check waits at `singleton.lock` until all help threads are
+//       there, and a thread that went through the locked part waits at `singleton.read3` until all of them
+//       have left it (time-outs instead of dead locks when a thread never gets there)
 // Result of a thread: `ok:<name>=<v>|<v>../<name>=..` (definition order, `-` = empty) or
 // `throw:<exception class>` / `setup-throw:<exception class>`.
 #include "common.hpp"
@@ -31,7 +40,12 @@
 #include <sstream>
 #include <thread>
 
+#include <chrono>
+#include <cstring>
+
 #include "celma/prog_args.hpp"
+#include "celma/prog_args/groups.hpp"
+#include "celma/common/detail/verif_hooks.hpp"
 #include "celma/prog_args/detail/cardinality_exact.hpp"
 #include "celma/prog_args/detail/cardinality_max.hpp"
 #include "celma/prog_args/detail/cardinality_range.hpp"
@@ -53,6 +67,52 @@ static std::atomic<unsigned> g_tsan_reports{0};
 extern "C" void __tsan_on_report(void*) { g_tsan_reports.fetch_add(1, std::memory_order_relaxed); }
 #endif
 
+// ---- forced schedule through the sync points of Singleton<T>::instance() ---------------------------
+struct HookAbort {};   // thrown out of instance() instead of using an object another thread has destroyed
+struct Force {
+   std::atomic<bool> on{false};
+   std::atomic<int> expected{0}, atLock{0}, leftLocked{0}, constructs{0}, victims{0};
+};
+static Force g_force;
+static thread_local bool t_slow = false;      // this call of instance() went into the locked part
+static thread_local int t_myConstruct = 0;    // serial number of the construction this thread performed (0: none)
+
+template <typename P> static void waitFor(P pred, int ms) {
+   const auto until = std::chrono::steady_clock::now() + std::chrono::milliseconds(ms);
+   while (!pred() && std::chrono::steady_clock::now() < until) std::this_thread::yield();
+}
+
+#ifdef CELMA_VERIF
+static void syncHook(const char* name) {
+   if (std::strncmp(name, "singleton.", 10) != 0) return;
+   const char* p = name + 10;
+   if (std::strcmp(p, "construct") == 0) { t_myConstruct = g_force.constructs.fetch_add(1) + 1; return; }
+   if (!g_force.on.load(std::memory_order_acquire)) return;
+   if (std::strcmp(p, "lock") == 0) {
+      t_slow = true;
+      g_force.atLock.fetch_add(1);
+      waitFor([] { return g_force.atLock.load() >= g_force.expected.load(); }, 400);
+   } else if (std::strcmp(p, "unlock") == 0) {
+      g_force.leftLocked.fetch_add(1);
+   } else if (std::strcmp(p, "read3") == 0 && t_slow) {
+      t_slow = false;
+      waitFor([] { return g_force.leftLocked.load() >= g_force.atLock.load(); }, 400);
+      const int mine = t_myConstruct;
+      t_myConstruct = 0;
+      // the object this thread is about to be handed was constructed by it and has been replaced since
+      if (mine != 0 && g_force.constructs.load() > mine) { g_force.victims.fetch_add(1); throw HookAbort{}; }
+   }
+}
+#endif
+
+static void installHook(bool on) {
+#ifdef CELMA_VERIF
+   celma::common::detail::verifSyncSlot().store(on ? &syncHook : nullptr, std::memory_order_release);
+#else
+   (void) on;
+#endif
+}
+
 // ---- workload description ------------------------------------------------------------------------
 struct ArgSpec {
    std::string key, kind, name;
@@ -67,6 +127,7 @@ struct ThreadSpec {
    std::vector<ArgSpec> args;
    std::vector<std::pair<std::string, std::string>> hcs;
    std::vector<std::string> argv;
+   bool help = false;
 };
 
 // destination variables of one argument, owned by the thread that runs the job
@@ -119,10 +180,15 @@ static pa::detail::ICheck* mkCheck(const std::string& spec, bool isInt) {
 static std::string job(const ThreadSpec& ts, bool ownStreams) {
    std::vector<Dest> dests(ts.args.size());
    std::ostringstream out, err;
+   int brOpen = 0, brClose = 0;   // live as long as the handler
    std::unique_ptr<pa::Handler> ah;
    try {
-      if (ownStreams) ah.reset(new pa::Handler(out, err, 0));
+      if (ts.help) ah.reset(new pa::Handler(out, err, pa::Handler::hfHelpShort | pa::Handler::hfUsageCont));
+      else if (ownStreams) ah.reset(new pa::Handler(out, err, 0));
       else ah.reset(new pa::Handler(0));
+      // the call `addBracketHandler` of the thread model (Lemmas/InterleaveApi.lean, `Api`): guarded use of the
+      // group singleton in Handler::addBracketHandler; the handlers capture variables of this thread only
+      if (ownStreams && !ts.help) ah->addBracketHandler([&brOpen]() { ++brOpen; }, [&brClose]() { ++brClose; });
       for (size_t k = 0; k < ts.args.size(); ++k) {
          const ArgSpec& a = ts.args[k];
          Dest& d = dests[k];
@@ -190,6 +256,8 @@ static std::string job(const ThreadSpec& ts, bool ownStreams) {
    } catch (const std::exception& e) {
       if (std::getenv("HANDLER_MT_DEBUG")) std::fprintf(stderr, "debug: %s: %s\n", exName(e).c_str(), e.what());
       return "throw:" + exName(e);
+   } catch (const HookAbort&) {
+      return "throw:destroyed-singleton";
    } catch (...) {
       return "throw:non_std";
    }
@@ -207,7 +275,10 @@ static std::string job(const ThreadSpec& ts, bool ownStreams) {
       else if (a.kind == "set_int") res += joinVals(d.si);
       else if (a.kind == "list_str") res += joinVals(d.ls);
    }
-   if (!out.str().empty() || !err.str().empty()) res += "/output=yes";
+   if (ts.help) {
+      const std::string u = out.str() + "\x01" + err.str();
+      res += "/usage=" + std::to_string(u.size()) + ":" + std::to_string(std::hash<std::string>{}(u) % 1000000007ull);
+   } else if (!out.str().empty() || !err.str().empty()) res += "/output=yes";
    return res;
 }
 
@@ -219,7 +290,7 @@ static uint64_t mix(uint64_t x) {
    x = (x ^ (x >> 27)) * 0x94d049bb133111ebull; return x ^ (x >> 31);
 }
 
-static std::string runAll(int n, int reps, uint64_t seed) {
+static std::string runAll(int n, int reps, uint64_t seed, bool forced) {
    if (n < 1 || n > 64) return "bad-op";
    std::vector<ThreadSpec> specs(n);
    for (int t = 0; t < n; ++t) {
@@ -227,9 +298,16 @@ static std::string runAll(int n, int reps, uint64_t seed) {
       if (it != g_specs.end()) specs[t] = it->second;
    }
    for (auto const& kv : g_specs) if (kv.first >= n) return "bad-op";
+   int nHelp = 0, nAsk = 0;       // usage-capable handlers / command lines that ask for the usage
+   for (int t = 0; t < n; ++t) {
+      nHelp += specs[t].help ? 1 : 0;
+      for (auto const& w : specs[t].argv) if (specs[t].help && w == "-h") { ++nAsk; break; }
+   }
+   installHook(nHelp > 0);      // counts constructions; forces the schedule only while g_force.on
    // 1. alone, sequentially
    std::vector<std::string> alone(n);
    for (int t = 0; t < n; ++t) {
+      if (nHelp > 0) pa::Groups::reset();
       alone[t] = job(specs[t], t % 2 == 1);
       if (alone[t].compare(0, 4, "bad-") == 0) return "bad-op";
    }
@@ -237,6 +315,11 @@ static std::string runAll(int n, int reps, uint64_t seed) {
    // 2. together
    std::string mismatch;
    for (int r = 0; r < reps && mismatch.empty(); ++r) {
+      if (nHelp > 0) {
+         pa::Groups::reset();        // no group singleton yet: the first uses race for its construction
+         g_force.expected = nAsk; g_force.atLock = 0; g_force.leftLocked = 0; g_force.constructs = 0; g_force.victims = 0;
+         g_force.on.store(forced, std::memory_order_release);
+      }
       std::vector<std::string> got(n);
       std::atomic<int> arrived{0};
       std::atomic<bool> go{false};
@@ -254,6 +337,16 @@ static std::string runAll(int n, int reps, uint64_t seed) {
       while (arrived.load() < n) std::this_thread::yield();
       go.store(true, std::memory_order_release);
       for (auto& x : th) x.join();
+      g_force.on.store(false, std::memory_order_release);
+      if (nHelp > 0 && g_force.constructs.load() > 1) {
+         std::ostringstream os;
+         os << "!! interference through Singleton<Groups>: constructed " << g_force.constructs.load()
+            << " times in one round (rep=" << r << ", " << nHelp << " threads print their usage); "
+            << g_force.victims.load() << " thread(s) were handed an object another thread destroyed (Handler::usage)";
+         for (int t = 0; t < n; ++t) if (got[t] != alone[t]) { os << "; thread=" << t << " alone=" << alone[t] << " concurrent=" << got[t]; break; }
+         mismatch = os.str();
+         break;
+      }
       for (int t = 0; t < n; ++t) {
          if (got[t] != alone[t]) {
             std::ostringstream os;
@@ -263,6 +356,7 @@ static std::string runAll(int n, int reps, uint64_t seed) {
          }
       }
    }
+   installHook(false);
    if (!mismatch.empty()) return mismatch;
    const unsigned tsanNow = g_tsan_reports.load();
    if (tsanNow != tsanBefore) {
@@ -281,12 +375,17 @@ int main() {
       if (tk.empty()) return "bad-op";
       if (tk[0] == "case") { g_specs.clear(); return "ok"; }
       try {
-         if (tk[0] == "arg" || tk[0] == "hc" || tk[0] == "argv") {
+         if (tk[0] == "arg" || tk[0] == "hc" || tk[0] == "argv" || tk[0] == "help") {
             const std::string ts = vh::kv(tk, "t");
             if (ts.empty()) return "bad-op";
             int t = std::stoi(ts);
             if (t < 0 || t > 63) return "bad-op";
             ThreadSpec& sp = g_specs[t];
+            if (tk[0] == "help") {
+               if (tk.size() != 2) return "bad-op";
+               sp.help = true;
+               return "ok";
+            }
             if (tk[0] == "argv") {
                if (tk.size() < 2 || tk[1] != "t=" + ts) return "bad-op";
                sp.argv.assign(tk.begin() + 2, tk.end());
@@ -333,7 +432,7 @@ int main() {
             int n = std::stoi(vh::kv(tk, "n", "0"));
             int reps = std::stoi(vh::kv(tk, "reps", "1"));
             uint64_t seed = std::stoull(vh::kv(tk, "seed", "1"));
-            return runAll(n, reps, seed);
+            return runAll(n, reps, seed, vh::kv(tk, "forced", "0") == "1");
          }
       } catch (const std::exception&) {
          return "bad-op";
